@@ -65,7 +65,7 @@ func GetCache(cacheFile string) MemCache {
 	b, err := ioutil.ReadFile(cacheFile)
 	if err == nil {
 		err = json.Unmarshal(b, &mem)
-		if err == nil && mem.ShardNo == shardNo {
+		if err == nil && mem.ShardNo == shardNo && mem.Cache.valid() {
 			return mem.Cache
 		}
 	}
@@ -76,6 +76,19 @@ func GetCache(cacheFile string) MemCache {
 	}
 
 	return m
+}
+
+// valid reports whether a loaded cache has the shape the lookups rely on
+func (m MemCache) valid() bool {
+	if len(m) != shardNo {
+		return false
+	}
+	for _, shard := range m {
+		if shard == nil || shard.Templates == nil {
+			return false
+		}
+	}
+	return true
 }
 
 func (m MemCache) getShard(id uint16, addr net.IP) (*TemplatesShard, uint32) {
